@@ -17,22 +17,21 @@ import (
 	"flag"
 	"fmt"
 	"os"
-	"runtime"
 	"runtime/debug"
 	"strings"
+	"time"
 
 	"github.com/go-ap/activitypub/verifsim"
 
 	"verif.local/sim/core"
+	"verif.local/sim/simrt"
+	_ "verif.local/sim/props/c04"
 	_ "verif.local/sim/props/c13"
 	_ "verif.local/sim/props/c19"
 )
 
-var (
-	out      = bufio.NewWriterSize(os.Stdout, 1<<16)
-	steps    int64
-	siteHits []bool
-)
+var out = bufio.NewWriterSize(os.Stdout, 1<<16)
+
 
 func emitJSON(v any) {
 	b, err := json.Marshal(v)
@@ -45,11 +44,25 @@ func emitJSON(v any) {
 	out.Flush()
 }
 
-func countHook(s uint32) {
-	steps++
-	if int(s) < len(siteHits) {
-		siteHits[s] = true
-	}
+// progress is bumped at every run / group; the watchdog goroutine (real
+// clock, used for nothing but this) ends the process when it stalls, so that a
+// loop inside an uninstrumented dependency cannot hold a worker for ever.
+
+func startWatchdog(stall time.Duration) {
+	go func() {
+		last, since := simrt.Progress.Load(), time.Now()
+		for {
+			time.Sleep(500 * time.Millisecond)
+			if cur := simrt.Progress.Load(); cur != last {
+				last, since = cur, time.Now()
+				continue
+			}
+			if time.Since(since) > stall {
+				fmt.Fprintf(os.Stderr, "verif-watchdog: no progress for %v\n", stall)
+				os.Exit(77)
+			}
+		}
+	}()
 }
 
 func main() {
@@ -58,7 +71,7 @@ func main() {
 		fmt.Fprintln(os.Stderr, "usage: sim run|plan|enum ...")
 		os.Exit(2)
 	}
-	siteHits = make([]bool, len(verifsim.Sites))
+	simrt.SiteHits = make([]bool, len(verifsim.Sites))
 	switch os.Args[1] {
 	case "run":
 		cmdRun(os.Args[2:])
@@ -84,12 +97,23 @@ func getProp(id string) *core.Prop {
 
 // runOne executes one run under the panic oracle and returns its record.
 func runOne(p *core.Prop, c *core.Ctx) {
-	steps = 0
-	c.Steps = &steps
+	simrt.Steps = 0
+	simrt.Limit = 0
+	c.Steps = &simrt.Steps
 	defer func() {
-		c.Rec.Steps = steps
+		c.Rec.Steps = simrt.Steps
+		simrt.Limit = 0
 		if r := recover(); r != nil {
-			frame, kind := panicSite(r)
+			if hp, ok := r.(simrt.HangPanic); ok {
+				site := "?"
+				if int(hp.Site) < len(verifsim.Sites) {
+					site = verifsim.Sites[hp.Site]
+				}
+				fn := site[strings.LastIndex(site, ":")+1:]
+				c.Fail("hang", fmt.Sprintf("%s/hang/%s", p.ID, fn), "step budget exhausted (simulated time) at %s after trace %s", site, strings.Join(tail(c.Trace, 6), "; "))
+				return
+			}
+			frame, kind := simrt.PanicSite(r)
 			c.Fail("panic", fmt.Sprintf("%s/panic/%s/%s", p.ID, frame, kind), "panic: %v (at %s) after trace %s", r, frame, strings.Join(tail(c.Trace, 6), "; "))
 		}
 	}()
@@ -103,46 +127,6 @@ func tail(s []string, n int) []string {
 	return s
 }
 
-// panicSite returns the innermost library frame of the panicking stack and a
-// short panic kind. Must be called from the deferred function that recovered.
-func panicSite(r any) (string, string) {
-	kind := "value"
-	if e, ok := r.(runtime.Error); ok {
-		msg := e.Error()
-		switch {
-		case strings.Contains(msg, "index out of range"):
-			kind = "index-out-of-range"
-		case strings.Contains(msg, "slice bounds out of range"):
-			kind = "slice-bounds"
-		case strings.Contains(msg, "nil pointer dereference"):
-			kind = "nil-deref"
-		case strings.Contains(msg, "interface conversion"):
-			kind = "interface-conversion"
-		case strings.Contains(msg, "nil map"):
-			kind = "nil-map"
-		default:
-			kind = "runtime-error"
-		}
-	}
-	pcs := make([]uintptr, 64)
-	n := runtime.Callers(3, pcs)
-	frames := runtime.CallersFrames(pcs[:n])
-	for {
-		f, more := frames.Next()
-		if strings.HasPrefix(f.Function, "github.com/go-ap/activitypub.") {
-			fn := strings.TrimPrefix(f.Function, "github.com/go-ap/activitypub.")
-			if i := strings.Index(fn, ".func"); i > 0 {
-				fn = fn[:i]
-			}
-			return fn, kind
-		}
-		if !more {
-			break
-		}
-	}
-	return "outside-library", kind
-}
-
 func cmdRun(args []string) {
 	fs := flag.NewFlagSet("run", flag.ExitOnError)
 	prop := fs.String("prop", "", "property id")
@@ -153,9 +137,20 @@ func cmdRun(args []string) {
 	stride := fs.Uint64("stride", 1, "run every stride-th index starting at from")
 	samples := fs.Int("samples", 0, "emit this many sample records")
 	hashOut := fs.String("hashes", "", "file receiving the distinct-case hashes (binary, 9 bytes per run)")
+	bbox := fs.String("blackbox", "", "shared file receiving the input of the operation in flight")
+	stall := fs.Duration("stall", 0, "end the process when a run makes no progress for this long")
 	fs.Parse(args)
 	p := getProp(*prop)
-	verifsim.Hook = countHook
+	if *bbox != "" {
+		if err := simrt.OpenBlackBox(*bbox, 1<<20); err != nil {
+			fmt.Fprintf(os.Stderr, "sim: blackbox: %v\n", err)
+			os.Exit(2)
+		}
+	}
+	if *stall > 0 {
+		startWatchdog(*stall)
+	}
+	verifsim.Hook = simrt.Hook
 	sum := core.Summary{Summary: true, SitesTotal: len(verifsim.Sites)}
 	var hw *bufio.Writer
 	if *hashOut != "" {
@@ -171,6 +166,7 @@ func cmdRun(args []string) {
 	for k := *from; k < *to; k += *stride {
 		fmt.Fprintf(out, "B %d\n", k)
 		out.Flush()
+		simrt.Progress.Add(1)
 		runSeed := core.Mix(*seed, k)
 		rec := &core.Record{Seed: runSeed, Mode: p.PickMode(k)}
 		c := &core.Ctx{Tape: core.NewTape(runSeed), Tier: *tier, Mode: rec.Mode, Rec: rec}
@@ -191,6 +187,9 @@ func cmdRun(args []string) {
 		}
 		if rec.Viol != nil {
 			rec.Plan = &core.Plan{Property: p.ID, Tier: *tier, Mode: rec.Mode, Seed: runSeed, Tape: c.Tape.Recorded(), Schedule: c.Schedule}
+			if c.PlanOut != nil {
+				rec.Plan = c.PlanOut
+			}
 			rec.Sample = c.Trace
 			emitJSON(rec)
 		} else if *samples > 0 && rec.Nontriv {
@@ -199,7 +198,7 @@ func cmdRun(args []string) {
 			emitJSON(rec)
 		}
 	}
-	for i, h := range siteHits {
+	for i, h := range simrt.SiteHits {
 		if h {
 			sum.SitesHit = append(sum.SitesHit, uint32(i))
 		}
@@ -227,7 +226,7 @@ func cmdPlan(args []string) {
 		os.Exit(2)
 	}
 	p := getProp(plan.Property)
-	verifsim.Hook = countHook
+	verifsim.Hook = simrt.Hook
 	fmt.Fprintf(out, "B 0\n")
 	out.Flush()
 	rec := &core.Record{Seed: plan.Seed, Mode: plan.Mode}
@@ -237,7 +236,7 @@ func cmdPlan(args []string) {
 			os.Exit(2)
 		}
 		sum := core.Summary{}
-		e := &core.EnumCtx{Tier: plan.Tier, Shards: 1, Steps: &steps, OnlyCase: plan.Case, Sum: &sum,
+		e := &core.EnumCtx{Tier: plan.Tier, Shards: 1, Steps: &simrt.Steps, OnlyCase: plan.Case, Sum: &sum,
 			Emit:   func(r *core.Record) { *rec = *r },
 			Begin:  func(string) {},
 			Hashes: func(uint64, bool) {},
@@ -246,8 +245,8 @@ func cmdPlan(args []string) {
 		emitJSON(rec)
 		return
 	}
-	c := &core.Ctx{Tape: core.ReplayTape(plan.Tape), Tier: plan.Tier, Mode: plan.Mode, Rec: rec, Replay: true, Schedule: plan.Schedule, Verbose: true}
-	if plan.Tape == nil {
+	c := &core.Ctx{Tape: core.ReplayTape(plan.Tape), Tier: plan.Tier, Mode: plan.Mode, Rec: rec, Replay: true, Schedule: plan.Schedule, Verbose: true, Entry: plan.Entry, Input: plan.Input}
+	if plan.Tape == nil && plan.Entry == "" {
 		// a run identified by seed only (its child died before reporting the
 		// tape): regenerate it, journalling every choice as it is made
 		c.Tape = core.NewTape(plan.Seed)
@@ -272,7 +271,7 @@ func cmdPlan(args []string) {
 	}
 	runOne(p, c)
 	rec.Sample = c.Trace
-	rec.Plan = &core.Plan{Property: p.ID, Tier: plan.Tier, Mode: c.Mode, Seed: plan.Seed, Tape: c.Tape.Recorded(), Schedule: c.Schedule}
+	rec.Plan = &core.Plan{Property: p.ID, Tier: plan.Tier, Mode: c.Mode, Seed: plan.Seed, Tape: c.Tape.Recorded(), Schedule: c.Schedule, Entry: plan.Entry, Input: plan.Input}
 	emitJSON(rec)
 }
 
@@ -283,13 +282,24 @@ func cmdEnum(args []string) {
 	shard := fs.Int("shard", 0, "shard index")
 	shards := fs.Int("shards", 1, "number of shards")
 	hashOut := fs.String("hashes", "", "file receiving the distinct-case hashes")
+	bbox := fs.String("blackbox", "", "shared file receiving the input of the operation in flight")
+	stall := fs.Duration("stall", 0, "end the process when a group makes no progress for this long")
 	fs.Parse(args)
 	p := getProp(*prop)
+	if *bbox != "" {
+		if err := simrt.OpenBlackBox(*bbox, 1<<20); err != nil {
+			fmt.Fprintf(os.Stderr, "sim: blackbox: %v\n", err)
+			os.Exit(2)
+		}
+	}
+	if *stall > 0 {
+		startWatchdog(*stall)
+	}
 	if p.Enum == nil {
 		emitJSON(core.Summary{Summary: true})
 		return
 	}
-	verifsim.Hook = countHook
+	verifsim.Hook = simrt.Hook
 	sum := core.Summary{Summary: true, SitesTotal: len(verifsim.Sites)}
 	var hw *bufio.Writer
 	if *hashOut != "" {
@@ -302,11 +312,12 @@ func cmdEnum(args []string) {
 		hw = bufio.NewWriterSize(f, 1<<16)
 		defer hw.Flush()
 	}
-	e := &core.EnumCtx{Tier: *tier, Shard: *shard, Shards: *shards, Steps: &steps, Sum: &sum,
+	e := &core.EnumCtx{Tier: *tier, Shard: *shard, Shards: *shards, Steps: &simrt.Steps, Sum: &sum,
 		Emit: func(r *core.Record) { emitJSON(r) },
 		Begin: func(g string) {
 			fmt.Fprintf(out, "G %s\n", g)
 			out.Flush()
+			simrt.Progress.Add(1)
 		},
 		Hashes: func(h uint64, nontrivial bool) {
 			if hw == nil {
@@ -321,8 +332,8 @@ func cmdEnum(args []string) {
 		},
 	}
 	p.Enum(e)
-	sum.Steps = steps
-	for i, h := range siteHits {
+	sum.Steps = simrt.Steps
+	for i, h := range simrt.SiteHits {
 		if h {
 			sum.SitesHit = append(sum.SitesHit, uint32(i))
 		}
